@@ -76,6 +76,14 @@ class VisitC(RtContract):
             raise OutOfSubset('reversed')
         ex.call_hooks['reversed'] = c_reversed
 
+        def reverse_slice(ex, node, a, st):
+            if isinstance(a, z3.ExprRef) and a.sort() == Val:
+                # <list or tuple>[::-1]: its elements, last first (anything else - a dict view, an iterator - raises TypeError)
+                ex.safety(st, 'reverse-slice-of-a-sequence', node, nkind(a) == LIST)
+                return rev(children(a))
+            return NotImplemented
+        ex.reverse_slice_hook = reverse_slice
+
         def m_values(ex, node, recv, st):
             if isinstance(recv, z3.ExprRef) and recv.sort() == Val:
                 ex.safety(st, 'values-of-a-dict', node, nkind(recv) == DICT)
